@@ -98,3 +98,8 @@ func VerifLogID(key *ecdsa.PrivateKey) ([sha256.Size]byte, error) { return logID
 func VerifCacheHash(cert []byte, isPrecert bool, ikh [32]byte) [32]byte {
 	return [32]byte(computeCacheHash(cert, isPrecert, ikh))
 }
+
+// VerifSignTreeHead signs an arbitrary tree head with the configuration's keys.
+func VerifSignTreeHead(c *Config, n int64, h [32]byte, t int64) ([]byte, error) {
+	return signTreeHead(c, treeWithTimestamp{Tree: tlog.Tree{N: n, Hash: tlog.Hash(h)}, Time: t})
+}
